@@ -162,20 +162,34 @@ def c19_run(prop, tier, seed):
 P_ASSUME = COMMON_ASSUME + ["the reference evaluator and the AST printer are trusted (guarded by the wrong-reference self-test and the mutation demos)"]
 
 SPECS = {}
-QUICK_FAMILIES = ["shape", "scc", "lat", "agg", "timeout", "ds"]
+QUICK_FAMILIES = ["shape", "scc", "lat", "agg", "timeout", "ds", "par"]
 SPECS["C01"] = {"run": prog_check(["shape", "scc"], "C01"), "replay": prog_replay,
                 "technique": "bounded-exhaustive enumeration of programs (compiled by the real macros) x all input databases, compared with a naive reference evaluator",
                 "assumptions": P_ASSUME + ["programs from the families F-shape and F-scc, domain {0,1}"]}
+def c02_run(prop, tier, seed):
+    reps = [run_family(prop, "par", tier, seed, "C02")]
+    # C02 speaks about programs accepted by both front ends: a unit whose parallel variant is rejected by
+    # rustc is outside its premise (reported under C15); but if many units drop out the run is vacuous
+    fails = COMPILE_FAILURES.get(("par", tier), {})
+    reps[0].setdefault("extras", {})["units_not_accepted_by_both_front_ends"] = len(fails)
+    if len(fails) > 12:
+        raise MachineryError("%d units of the par family do not compile: the differential check would be vacuous" % len(fails))
+    return reps
+
+
+SPECS["C02"] = {"run": c02_run, "replay": prog_replay,
+                "technique": "differential serial vs parallel macros on bounded-exhaustive programs x inputs at the default schedule (one rayon worker); exhaustive schedule exploration of collision harnesses under vsched",
+                "assumptions": P_ASSUME + ["this part runs the parallel code on a one-worker rayon pool (the 0-deviation schedule)"]}
 SPECS["C03"] = {"run": prog_check(["lat"], "C03"), "replay": prog_replay,
                 "technique": "bounded-exhaustive enumeration of lattice programs (8 lattice column types x 7 shapes, compiled by the real macros) x all input databases, compared with a naive least-fixed-point evaluator",
                 "assumptions": P_ASSUME + ["lattice values flow only through monotone uses (monotone step into a lattice head, upward-closed test); Product<..> cannot be a lattice column (no Hash impl)"]}
 SPECS["C04"] = {"run": prog_check(["agg"], "C04"), "replay": prog_replay,
                 "technique": "bounded-exhaustive enumeration of stratified programs with aggregation / negation (compiled by the real macros) x all input databases, compared with a naive stratified evaluator",
                 "assumptions": P_ASSUME + ["aggregated relation is an input, a non-looping or looping stratum output, a lattice, an aggregate result, or the head of two strata; aggregators count sum min max mean percentile(50) not and a user aggregator"]}
-SPECS["C05"] = {"run": prog_check(["scc", "lat", "shape"], "C05"), "replay": prog_replay,
+SPECS["C05"] = {"run": prog_check(["scc", "lat", "shape", "par"], "C05", report_compile_failures=False), "replay": prog_replay,
                 "technique": "bounded-exhaustive programs x inputs (incl. inputs with a duplicated fact) on the compiled real macros; row multiplicity, input-prefix and one-row-per-lattice-key oracles on every run",
                 "assumptions": P_ASSUME + ["serial part; the parallel part (all interleavings of workers deriving the same tuple) is explored by the vsched engine"]}
-SPECS["C13"] = {"run": prog_check(["scc", "lat", "agg"], "C13"), "replay": prog_replay,
+SPECS["C13"] = {"run": prog_check(["scc", "lat", "agg", "par"], "C13", report_compile_failures=False), "replay": prog_replay,
                 "technique": "bounded-exhaustive enumeration of run / add-facts histories over compiled programs x initial inputs x added fact sets, compared with the reference fixpoint of the union of inputs",
                 "assumptions": P_ASSUME + ["histories run;run and run;run;add;run (thorough: a second add;run and pairs of facts); facts added to any relation incl. derived ones; fresh lattice keys only"]}
 SPECS["C14"] = {"run": prog_check(["timeout"], "C14"), "replay": prog_replay,
